@@ -49,6 +49,8 @@ __all__ = [
 # stdlib imports
 import logging
 import datetime
+import os
+import tempfile
 import http.cookiejar
 import uuid
 import xml.etree.ElementTree as ET
@@ -538,8 +540,14 @@ class OFXClient:
 
             # Cache the updated PROFRS sent by the server
             response.seek(0)
-            with open(persistpath, "wb") as f:
+            # Write to a temporary file and rename it into place, so that a
+            # crash or a concurrent request never leaves a truncated or
+            # interleaved cache file.
+            with tempfile.NamedTemporaryFile(
+                "wb", dir=persistdir, suffix=".tmp", delete=False
+            ) as f:
                 f.write(response.read())
+            os.replace(f.name, persistpath)
 
         # Rewind PROFRS so it can be returned cleanly after having been parsed.
         response.seek(0)
